@@ -11,7 +11,11 @@ RULE = ("random engine states built through the real Engine::process (2-3 exchan
         "Distinct by SHA-1 of op lines; non-trivial when the observations change at least once. Input-domain family d<k> (N/8 further cases, separately seeded, same case builder): "
         "reversed-pair underlyings (instruments a3/a0 next to a0/a3, filters naming one direction); decimal quantities (1e-8 .. 1e7, fractions) and prices (exact as f64: 2^-10 .. 12345678); "
         "engines with one exchange or 4-5 exchanges; positions closed (`flat`) before the command, a third re-opened on the other side; a tracked order whose client order id equals the "
-        "injected close-position id 9000+i; the same command three times in a row; market price 0")
+        "injected close-position id 9000+i; the same command three times in a row; market price 0. "
+        "Configuration-shape family c<k> (N/8 further cases, separately seeded, same case builder; C19's own set-up op `cfg K <kinds> V <direct|system>` before `init`, interpreted by c19.rs / Driver/C19.lean): "
+        "engines whose instruments are declared as perpetual / perpetual quoted in base and settled in a third asset / future / option contracts (contract sizes 10, 0.001, 100, 5) - all spot, one kind for all, or mixed; "
+        "every cancel_orders / close_positions command additionally issued through a real barter::system::System handle (System::cancel_orders / close_positions -> feed_tx), the event arriving on the feed printed (`sysfeed`) "
+        "and compared with the command the engine processes (`syseq`); half of these cases with closed / unhealthy / missing (None slot: tracked-but-not-traded exchange) links")
 ASSUMPTIONS = [
     "key-uniqueness of each instrument's order table (a FnvHashMap in the code) is a hypothesis of cancel_scope_lookup / cancel_at_most_once / repeat_*; it is proved invariant over all engine histories "
     "from empty tables (keys_unique_invariant, tables_unique_invariant)",
@@ -22,6 +26,9 @@ ASSUMPTIONS = [
     "the close-position client order id generator is injected (9000 + instrument index); ClosePositions uses the repo's default close_open_positions_with_market_orders",
     "positions / prices are not printed by the shared protocol; they are observed through the requests of later unfiltered close_positions commands",
     "channel semantics (send succeeds iff the receiver is alive, FIFO) as in C03",
+    "the engine model has no instrument kind: `cfg K` only selects how the REAL engine's instruments are declared (spot / perpetual / future / option, contract size, settlement asset, quote asset); the property's "
+    "observables are required to be the same for every kind (a position's close order has the position's quantity, whatever the contract size)",
+    "`cfg V system`: the System handle is built around the case's feed channel only (its engine task never runs); the command it puts on the feed is compared with, not substituted for, the event the shared protocol processes",
     "limits of the shared engine line protocol (harness/src/engine_proto.rs, Driver/EngineCommon.lean; not changed here): `ev fill` is only issued on an instrument that holds no position (the model event sets the position, the harness sends one trade), never with quantity 0 (the harness skips it as `noop`); market prices travel as f64 (PublicTrade.price), so generated prices are exact binary fractions; a filter with an EMPTY list (InstrumentFilter::Exchanges(Many(vec![])) etc.) has no syntax and is not generated",
 ]
 SOURCE_FILES = ["barter/src/engine/action/cancel_orders.rs", "barter/src/engine/action/close_positions.rs", "barter/src/strategy/close_positions.rs",
